@@ -149,3 +149,10 @@ CASES += [
     {"name": "distance to the neighbours computed from start plus index times step", "kind": "twin", "edits": [
         (_VA, "            diff1 = numpy.abs(val-self.data[nsni])", "            diff1 = numpy.abs(val - (self.start + nsni*self.step))", 1)]},
 ]
+
+_HAM = "quantarhei/qm/hilbertspace/hamiltonian.py"
+CASES += [
+    {"name": "rotating-frame Hamiltonian kept from the first request (seeded change of round 7)", "kind": "mutant", "rule": "C08-I", "edits": [
+        (_HAM, "        return self.data - numpy.diag(self.get_RWA_skeleton())",
+         "        if getattr(self, \"_rwa_data\", None) is None:\n            self._rwa_data = self.data - numpy.diag(self.get_RWA_skeleton())\n        return self._rwa_data", 1)]},
+]
